@@ -130,6 +130,29 @@ impl JapaneseDictionary {
 
         // we need to update lexicon first, since it needs the current number of pos
         let mut user_lexicon = user_dict.lexicon;
+
+        // a user dictionary can be compiled against another system dictionary:
+        // its connection ids must index the connection matrix of this one
+        let conn = self._grammar.conn_matrix();
+        for wid in 0..user_lexicon.size() {
+            let (left, right, _) = user_lexicon.get_word_param(wid);
+            if left >= 0
+                && (left as usize >= conn.num_left()
+                    || right < 0
+                    || right as usize >= conn.num_right())
+            {
+                return Err(SudachiError::InvalidDataFormat(
+                    wid as usize,
+                    format!(
+                        "user dictionary word has connection ids ({}, {}), the connection matrix is {}x{}",
+                        left,
+                        right,
+                        conn.num_left(),
+                        conn.num_right()
+                    ),
+                ));
+            }
+        }
         user_lexicon.update_cost(&self)?;
 
         self._lexicon
